@@ -15,8 +15,13 @@ is no user documentation of gama-g3) are conventions only:
   * observed height = ellipsoidal height - geoid undulation of the point.
 """
 import math
+import os
 
 import numpy as np
+
+# sensitivity switch (development only, never set by the registered commands): a deliberate fault in the HARNESS,
+# to confirm that the oracles notice it.  east_sign | cov_row_swap | truth_shift | minx_free | obs_bias
+MUTATE = os.environ.get("VERIF_C19_MUTATE", "")
 
 RHO_CC = 200.0e4 / math.pi          # cc per radian
 ARCSEC = math.pi / 180.0 / 3600.0
@@ -79,9 +84,12 @@ def xyz2blh(ab, P):
 def frame(B, L):
     """3x3, columns = unit vectors north, east, up at (B, L) in XYZ"""
     sB, cB, sL, cL = math.sin(B), math.cos(B), math.sin(L), math.cos(L)
-    return np.array([[-sB * cL, -sL, cB * cL],
-                     [-sB * sL, cL, cB * sL],
-                     [cB, 0.0, sB]])
+    R = np.array([[-sB * cL, -sL, cB * cL],
+                  [-sB * sL, cL, cB * sL],
+                  [cB, 0.0, sB]])
+    if MUTATE == "east_sign":
+        R[:, 1] = -R[:, 1]
+    return R
 
 
 def up(B, L):
@@ -308,6 +316,8 @@ def observed(case, net):
         for o in cl["obs"]:
             dim = OBS_DIM[o["t"]]
             v = net.f(o, net.truth) + e[k:k + dim] / obs_scale(o)
+            if MUTATE == "obs_bias" and o["t"] == "vector" and not out and not vals:
+                v = v + np.array([2e-5, 0.0, 0.0])                # one inconsistent observation
             k += dim
             if o["t"] in ANGULAR:
                 if o["t"] in ("angle", "azimuth"):
@@ -447,6 +457,9 @@ def write_xml(case, net, obsval, order=None):
                            % (ids[o["from"]], ids[o["left"]], ids[o["right"]], tx[0], opt))
         if rows:
             Cw = C[np.ix_(rows, rows)] / np.outer(scale, scale)
+            if MUTATE == "cov_row_swap" and order and len(rows) >= 2:
+                pm = [1, 0] + list(range(2, len(rows)))        # a covariance row travels without its observation
+                Cw = Cw[np.ix_(pm, pm)]
             b = bandwidth(Cw)
             if not order:
                 b = max(b, min(ov["band"], len(rows) - 1))      # the drawn band (zeros inside it are written)
